@@ -382,7 +382,7 @@ def cell_bound(ret, a, b):
     return x0, v0, D, max(E, rho0)
 
 
-def prove_cells(V, run, truth, bound, clause, site, box=None, width=64, min_cells=100, extra_slack=Fraction(0), adapt=None, tag=""):
+def prove_cells(V, run, truth, bound, clause, site, box=None, width=64, min_cells=100, extra_slack=Fraction(0), adapt=None, tag="", rng_acc=None):
     """Certifying direction, generic: for every path of `run` and every cell [a,b] of its parameter box,
          |actual(x) - f(x)| <= |v(x0) - f(x0)| + max|D - f'| * |x - x0| + E
        must not exceed bound(a, b) - extra_slack.
@@ -419,6 +419,11 @@ def prove_cells(V, run, truth, bound, clause, site, box=None, width=64, min_cell
             dmax = max(abs(D[0] - dh), abs(D[1] - dl), abs(D[0] - dl), abs(D[1] - dh))
             dx = max(x0 - a, b - x0)
             err = max(abs(v0 - f0l), abs(v0 - f0h)) + dmax * dx + E
+            up = v0 + max(D[1] * (b - x0), D[0] * (a - x0), 0) + E
+            dn = v0 + min(D[0] * (b - x0), D[1] * (a - x0), 0) - E
+            if rng_acc is not None:
+                rng_acc[0] = dn if rng_acc[0] is None else min(rng_acc[0], dn)
+                rng_acc[1] = up if rng_acc[1] is None else max(rng_acc[1], up)
             ok = err + extra_slack <= bd
             V.oblige(ok)
             ncell += 1
